@@ -2,7 +2,7 @@
 SplitMix64 stream seeded by VERIF_SEED, so a disagreement replays exactly."""
 import itertools
 
-CLASSES = ["w4", "s16", "b1", "a32", "big", "p4"]
+CLASSES = ["w4", "s16", "b1", "a32", "big", "p4", "a16"]
 MAXU = (1 << 64) - 1
 
 class Rng:
@@ -72,6 +72,12 @@ def two_reg_ops(r="v0"):
             ["drain_vec %s c1" % r, "push %s 93" % r, "push c1 94"],
             ["macro_list c1 40 41", "append %s c1" % r, "push c1 95"],
             ["new c1", "append %s c1" % r],
+            ["with_capacity c1 3", "append %s c1" % r, "push %s 96" % r],
+            ["macro_list c1 40", "pop c1", "append %s c1" % r, "append c1 %s" % r],
+            ["with_capacity c1 3", "append c1 %s" % r],
+            ["macro_list c1 40 41", "clone_from c1 %s" % r, "push c1 97", "pop %s" % r],
+            ["new c1", "clone_from c1 %s" % r, "push c1 97"],
+            ["macro_list c1 40 41 42 43 44 45 46 47 48", "clone_from %s c1" % r, "drop c1", "push %s 98" % r],
             ["macro_list c1 40 41", "append c1 %s" % r],
             ["macro_list c1 1 2 3", "compare %s c1" % r],
             ["clone %s c1" % r, "compare %s c1" % r, "compare c1 %s" % r]]
